@@ -46,6 +46,7 @@ type c04Scan struct {
 	holderOuter []*types.Var // fields of ServerPool that contain the slot holding the atomic.Value
 	recvParams  map[*ssa.Parameter]bool
 	listParams  map[*ssa.Parameter]bool
+	elemParams  map[*ssa.Parameter]bool
 }
 
 func c04Deref(t types.Type) types.Type {
@@ -972,6 +973,7 @@ func (s *c04Scan) elements(prog *ssa.Program) {
 		var badPos token.Pos
 		s.recvParams = map[*ssa.Parameter]bool{}
 		s.listParams = map[*ssa.Parameter]bool{}
+		s.elemParams = map[*ssa.Parameter]bool{}
 		if len(fn.Params) > 0 {
 			s.recvParams[fn.Params[0]] = true
 		}
@@ -1022,6 +1024,8 @@ func (s *c04Scan) elements(prog *ssa.Program) {
 			}
 			seen[v] = true
 			switch x := v.(type) {
+			case *ssa.Parameter:
+				return s.elemParams[x]
 			case *ssa.Call:
 				return follow(fn, x, 0, seen)
 			case *ssa.Extract:
@@ -1056,6 +1060,29 @@ func (s *c04Scan) elements(prog *ssa.Program) {
 									return false
 								}
 							case *ssa.UnOp, *ssa.DebugRef:
+							case *ssa.MakeClosure:
+								// the variable is captured by a closure (the visitor of a callback
+								// iterator): what the closure stores into it must qualify too
+								cf, _ := y.Fn.(*ssa.Function)
+								if cf == nil || !s.bindVisitor(fn, im, y, cf) {
+									return false
+								}
+								for bi, bnd := range y.Bindings {
+									if bnd != ssa.Value(cell) || bi >= len(cf.FreeVars) || cf.FreeVars[bi].Referrers() == nil {
+										continue
+									}
+									for _, r2 := range *cf.FreeVars[bi].Referrers() {
+										switch z := r2.(type) {
+										case *ssa.Store:
+											if z.Addr != ssa.Value(cf.FreeVars[bi]) || !classifyIn(cf, z.Val, seen) {
+												return false
+											}
+										case *ssa.UnOp, *ssa.DebugRef:
+										default:
+											return false
+										}
+									}
+								}
 							default:
 								return false
 							}
@@ -1091,7 +1118,75 @@ func (s *c04Scan) elements(prog *ssa.Program) {
 			c.Discharge("R-C04-2", cons, c.Prog.Rel(fn.Pos()), sprintf("%d returns: %d element loads of the receiver's list, %d nil", rets, elems, nils))
 		}
 	}
-	s.recvParams, s.listParams = nil, nil
+	s.recvParams, s.listParams, s.elemParams = nil, nil, nil
+}
+
+// bindVisitor: closure value mc (function cf) is handed, together with the receiver's list, to a
+// same-module iterator h that calls it with elements of that list; the closure's parameters that
+// receive the element are recorded in s.elemParams. false if the closure is used in any other way.
+func (s *c04Scan) bindVisitor(fn *ssa.Function, im *c04Impl, mc *ssa.MakeClosure, cf *ssa.Function) bool {
+	refs := mc.Referrers()
+	if refs == nil {
+		return false
+	}
+	bound := false
+	for _, r := range *refs {
+		call, ok := r.(*ssa.Call)
+		if !ok {
+			if _, dbg := r.(*ssa.DebugRef); dbg {
+				continue
+			}
+			return false
+		}
+		h := call.Call.StaticCallee()
+		if call.Call.IsInvoke() || h == nil || h.Blocks == nil || h.Pkg == nil || !strings.HasPrefix(h.Pkg.Pkg.Path(), load.ModulePath) {
+			return false
+		}
+		visit := -1
+		for i, a := range call.Call.Args {
+			if i >= len(h.Params) {
+				break
+			}
+			if a == ssa.Value(mc) {
+				visit = i
+			}
+			if s.isRecvList(fn, im, a, map[ssa.Value]bool{}) {
+				s.listParams[h.Params[i]] = true
+			}
+		}
+		if visit < 0 {
+			return false
+		}
+		// every call of the visitor inside h passes element loads of the list
+		vrefs := h.Params[visit].Referrers()
+		if vrefs == nil {
+			return false
+		}
+		for _, vr := range *vrefs {
+			vc, ok := vr.(*ssa.Call)
+			if !ok {
+				if _, dbg := vr.(*ssa.DebugRef); dbg {
+					continue
+				}
+				return false
+			}
+			if vc.Call.Value != ssa.Value(h.Params[visit]) {
+				return false
+			}
+			for k, a := range vc.Call.Args {
+				if k >= len(cf.Params) {
+					break
+				}
+				if u, ok := a.(*ssa.UnOp); ok && u.Op == token.MUL {
+					if ia, ok := u.X.(*ssa.IndexAddr); ok && s.isRecvList(h, im, ia.X, map[ssa.Value]bool{}) {
+						s.elemParams[cf.Params[k]] = true
+						bound = true
+					}
+				}
+			}
+		}
+	}
+	return bound
 }
 
 // ----------------------------------------------------------------------------------------
